@@ -74,6 +74,10 @@ def configs(tier):
     add(d_small, c={"retries": 1}, reqs=[(0, 0)], reannounce={"maxapdu": 50}, label="unknown-peer-announces-midway")
     add(d_small, c={"retries": 1}, reqs=[(0, 0), (5, 5)], via="iocb", reannounce={"maxapdu": 50}, label="iocb-unknown-peer-announces-midway")
     add(d_big, c={"retries": 1}, reqs=[(rq(2), rs(2))], reannounce={"maxapdu": 50}, label="seg-unknown-peer-announces-midway")
+    # the peer is known (its record is held by the transaction) and announces itself again while the request is under way
+    add(d_small, c={"retries": 1}, reqs=[(0, 0)], peerinfo="iam", reannounce={"maxapdu": 50}, label="known-peer-announces-again-midway")
+    add(d_small, c={"retries": 1}, reqs=[(0, 0), (5, 5)], via="iocb", peerinfo="record", reannounce={"maxapdu": 50},
+        label="iocb-known-peer-announces-again-midway")
     # two requests outstanding at once in a process that has a far-away timer of its own
     add(d_small, c={"retries": 1}, reqs=[(0, 0), (0, 0)], background=True, label="2-concurrent-with-background-timer")
     add(d_big, c={"retries": 1}, reqs=[(0, rs(2)), (0, 0)], background=True, answer="hold", label="2-concurrent-hold-with-background-timer")
@@ -104,6 +108,10 @@ def configs(tier):
         for ss in segs:
             for peerinfo in (False, "record"):
                 add(1, c={"seg": sc}, s={"seg": ss}, reqs=[(rq(2), 0), (0, 0)], via="iocb", peerinfo=peerinfo, label="segsup-iocb")
+    # a request that is refused locally (synchronously, when its turn comes) with two more queued behind it
+    for sc in ("noSegmentation", "segmentedReceive"):
+        add(1, c={"seg": sc}, reqs=[(0, 0), (rq(2), 0), (0, 0), (5, 5)], via="iocb", label="iocb-sync-abort-in-the-middle")
+        add(1, c={"seg": sc}, reqs=[(rq(2), 0), (0, 0), (5, 5)], via="iocb", label="iocb-sync-abort-first")
     # answer modes and other reply kinds
     add(d_small, reqs=[(0, 0)], answer="hold", label="hold")
     add(d_big, reqs=[(0, rs(3))], answer="hold", label="hold-segresp")
